@@ -72,6 +72,8 @@ def coq_ty(t):
         return "(ext num)"
     if t == NAT:
         return "nat"
+    if t == "srm":
+        return "srm"
     if isinstance(t, tuple) and t[0] == "funN":
         return "(" + " -> ".join(coq_ty(x) for x in t[1]) + " -> " + coq_ty(t[2]) + ")"
     if isinstance(t, tuple):
@@ -577,6 +579,11 @@ class Translator:
             if at == BOOL:
                 return f"(if {a} then nlit 1 else nlit 0)", NUM
             fail(n, "int()")
+        if name == "scipy.stats.norm.sf" and len(n.args) == 1 and not n.keywords:
+            a, at = self.ex(n.args[0], env)
+            if at != NUM:
+                fail(n, "norm.sf argument")
+            return f"(sf (norm_ fam (nlit 0)) {a})", NUM
         if name in ("scipy.stats.t", "scipy.stats.norm", "scipy.stats.nct"):
             if n.args:
                 fail(n, "positional distribution parameters")
